@@ -130,6 +130,19 @@ fn json_strategy() -> BoxedStrategy<Case> {
       }
       Case::Json(v)
     }),
+    // well-formed documents whose string fields hold hostile and *shaped* values (identifiers, URLs, paths as other tools
+    // write them, also with one character outside ASCII): every one is inside the documented domain
+    2 => (vec(crate::props::c15::wild_string(), 5..=5), 0u8..32u8).prop_map(|(v, present)| {
+      let mut doc = serde_json::Map::new();
+      doc.insert("version".into(), 3.into());
+      doc.insert("mappings".into(), "AAAA".into());
+      doc.insert("sources".into(), vec![v[0].clone()].into());
+      if present & 1 != 0 { doc.insert("names".into(), vec![v[1].clone()].into()); }
+      if present & 2 != 0 { doc.insert("file".into(), v[2].clone().into()); }
+      if present & 4 != 0 { doc.insert("sourceRoot".into(), v[3].clone().into()); }
+      if present & 24 != 0 { doc.insert("debugId".into(), v[4].clone().into()); }
+      Case::Json(serde_json::to_vec(&serde_json::Value::Object(doc)).unwrap())
+    }),
     // deep nesting and long strings
     1 => (1usize..2000, 0u8..4u8).prop_map(|(n, k)| Case::Json(match k {
       0 => "[".repeat(n).into_bytes(),
